@@ -616,7 +616,7 @@ def dec_validate(sx):
 
 
 # ---- writer
-def impl_writer(hlines, mode, specs, channel="fd"):
+def impl_writer(hlines, mode, specs, channel="fd", hmode=None):
     """channel: "fd" (MafWriter.from_fd on io.StringIO), "path" / "gz" (MafWriter.from_path on a scratch file
     under /verif/work/<unique>, plain or gzip-compressed; removed afterwards)"""
     ensure_repo()
@@ -628,6 +628,8 @@ def impl_writer(hlines, mode, specs, channel="fd"):
     from maflib.record import MafRecord
     from maflib.writer import MafWriter
     h = MafHeader.from_lines(list(hlines), validation_stringency=py_mode("Silent"))
+    if hmode is not None:
+        h.validation_stringency = py_mode(hmode)      # the header object remembers another stringency than the writer's
     recs = [MafRecord.from_line(validation_stringency=py_mode("Silent"), **_recspec_args(s)) for s in specs]
     class KeepOpen(io.StringIO):
         def close(self):        # MafWriter.close() closes its handle; the text is read afterwards
@@ -1459,3 +1461,122 @@ def focused(*files):
 
 def focused_fn(*fragments):
     return any(any(fr in fn for fr in fragments) for fn in FOCUS["functions"])
+
+
+# ------------------------------------------------------------------ the header's own report while a reader works (C13)
+def impl_reader_header_report(lines, override=None):
+    """MafReader(lines, Silent): reader.header().validation_errors right after opening, after all records were
+    read, and the report of a header derived with from_reader afterwards"""
+    ensure_repo()
+    from maflib.header import MafHeader
+    from maflib.reader import MafReader
+    rd = MafReader(lines=list(lines), validation_stringency=py_mode("Silent"), scheme=make_scheme(override))
+    out = {"opened": c_errs(rd.header().validation_errors), "reader_opened": c_errs(rd.validation_errors)}
+    n = 0
+    try:
+        for _ in rd:
+            n += 1
+    except Exception as e:  # noqa
+        out["_end"] = c_exn(e)
+    out["read"] = c_errs(rd.header().validation_errors)
+    out["reader_read"] = c_errs(rd.validation_errors)
+    out["derived"] = c_errs(MafHeader.from_reader(rd).validation_errors)
+    hl = []
+    for l in lines:
+        l2 = l.rstrip("\r\n")
+        if not l2.startswith("#"):
+            break
+        hl.append(l2)
+    out["_fresh"] = c_errs(MafHeader.from_lines(hl, validation_stringency=py_mode("Silent")).validation_errors)
+    return out
+
+
+# ------------------------------------------------------------------ a reader whose stringency is switched mid-way (C17)
+def impl_reader_switch(lines, override, k):
+    """open Silent, read k records, set reader.validation_stringency = Strict, keep reading: per step the record's
+    errors or the exception"""
+    ensure_repo()
+    from maflib.reader import MafReader
+    from maflib.validation import ValidationStringency
+    try:
+        rd = MafReader(lines=list(lines), validation_stringency=py_mode("Silent"), scheme=make_scheme(override))
+    except Exception as e:  # noqa
+        return {"init": c_exn(e), "steps": []}
+    it = iter(rd)
+    steps = []
+    for j in range(len(lines) + 2):
+        if j == k:
+            rd.validation_stringency = ValidationStringency.Strict
+        try:
+            r = next(it)
+            steps.append(["rec", c_errs(r.validation_errors)])
+        except StopIteration:
+            break
+        except Exception as e:  # noqa
+            steps.append(["exc", c_exn(e)])
+            break
+    return {"init": None, "steps": steps}
+
+
+LINEBREAK_LIKE = ["\x0b", "\x0c", "\x1c", "\x1d", "\x1e", "\x85", "\u2028", "\u2029"]
+
+
+def linebreak_like_cases():
+    """files whose fields contain characters str.splitlines() breaks at but file iteration does not"""
+    out = []
+    for i, ch in enumerate(LINEBREAK_LIKE):
+        for hl in ([], ["#version v1"]):
+            for data in (["1\t2" + ch + "3", "4\t5"], ["1" + ch + "\t2", "3" + ch, ch + "4\t5"], [ch, "1\t2"]):
+                out.append({"lines": hl + ["a\tb"] + data, "override": None,
+                            "shape": {"stream": "linebreak-like", "H": len(hl), "col": True, "data": len(data),
+                                      "flavour": "plain", "order": None, "contigs": False, "defect": "data-ctrl"}})
+        out.append({"lines": ["#k v" + ch + "w", "#j" + ch + " x", "a" + ch + "\tb", "1\t2"], "override": None,
+                    "shape": {"stream": "linebreak-like", "H": 2, "col": True, "data": 1, "flavour": "plain",
+                              "order": None, "contigs": False, "defect": "hdr-ctrl"}})
+    return out
+
+
+def order_special_cases():
+    """contig lists without an accepted coordinate-type order; BarcodesAndCoordinate files that lack a barcode and
+    are out of order; a caller-supplied scheme of another version together with a header defect"""
+    out = []
+
+    def shape(defect, order=None, contigs=False):
+        return {"stream": "order-special", "H": 0, "col": True, "data": 2, "flavour": "plain", "order": order,
+                "contigs": contigs, "defect": defect}
+
+    cols = "Chromosome\tStart_Position\tEnd_Position"
+    rows = ["chr1\t5\t5", "chr1\t3\t3"]
+    for hl in (["#contigs chr1,chr2"], ["#contigs chr1,chr2", "#sort.order Unsorted"], ["#sort.order Unknown", "#contigs chr1"],
+               ["#contigs chr1", "#sort.order bogus"], ["#sort.order bogus", "#contigs chr1,chr2", "#version v1"],
+               ["#version gdc-1.0.0", "#contigs 1,2"]):
+        for tail in ([], [cols] + rows):
+            out.append({"lines": hl + tail, "override": None, "shape": shape("contigs-without-order", None, True)})
+    for names, rws in (
+            (["Chromosome", "Start_Position", "End_Position"], ["chr1\t5\t5", "chr1\t3\t3"]),
+            (["Tumor_Sample_Barcode", "Chromosome", "Start_Position", "End_Position"], ["T2\tchr1\t5\t5", "T1\tchr1\t3\t3"]),
+            (["Matched_Norm_Sample_Barcode", "Chromosome", "Start_Position", "End_Position"], ["N1\tchr2\t5\t5", "N1\tchr1\t3\t3"]),
+            (["Tumor_Sample_Barcode", "Matched_Norm_Sample_Barcode", "Chromosome", "Start_Position", "End_Position"],
+             ["T1\tN2\tchr1\t5\t5", "T1\tN1\tchr1\t9\t9", "T1"])):
+        for hl in (["#sort.order BarcodesAndCoordinate"], ["#sort.order BarcodesAndCoordinate", "#contigs chr1,chr2"]):
+            out.append({"lines": hl + ["\t".join(names)] + rws, "override": None,
+                        "shape": shape("order-break", "BarcodesAndCoordinate", len(hl) > 1)})
+    for hl in (["#version gdc-1.0.0", "#k"], ["#nosep", "#version gdc-1.0.0"], ["#version gdc-1.0.0", "#version gdc-1.0.0"],
+               ["#version gdc-1.0.0", "# v", "#sort.order bogus"]):
+        for ov in (["norestr", ["a", "b"]], ["norestr", []]):
+            for tail in ([], ["a\tb", "1\t2"], ["a", "1"]):
+                out.append({"lines": hl + tail, "override": ov, "shape": shape("override+hdr", None, False)})
+    return out
+
+
+def many_error_cases():
+    """more than a hundred errors collected in one call"""
+    sch = builtin_scheme("gdc-1.0.0-public")
+    names = sch.column_names()
+    out = [{"kind": "header", "lines": ["#"] * 101},
+           {"kind": "header", "lines": ["#k%d" % i for i in range(60)] + ["#"] * 45 + ["#k v"] * 70},
+           {"kind": "reader", "lines": ["#version gdc-1.0.0", "#annotation.spec gdc-1.0.0-public", "\t".join(reversed(names))],
+            "override": None},
+           {"kind": "reader", "lines": ["#version gdc-1.0.0", "#annotation.spec gdc-1.0.0-public",
+                                        "\t".join("x" + n for n in names), "\t".join("%" for _ in names)], "override": None}]
+    return out
